@@ -1,0 +1,74 @@
+//go:build verif
+
+package compress
+
+// Contracts for /verif (gvc). Comment-only file; see /verif/DESIGN.md §5 C07 (layer 3: adaptive float encoder).
+
+//@ prop C07
+
+//@ func newContext
+//@   trusted takes an object from a sync.Pool and resets it
+//@   ensures result != nil && result.distinctCount == 1 && result.intOnly && result.lessDecimal && !result.extremeDataValues
+//@   assigns Context::distinctCount, Context::intOnly, Context::lessDecimal, Context::extremeDataValues
+
+//@ func (*Context).NotCompress
+//@   requires ctx != nil
+//@   ensures result == (ctx.valueCount <= 4)
+//@   assigns nothing
+//@ func (*Context).Same
+//@   requires ctx != nil
+//@   ensures result == (ctx.distinctCount == 1)
+//@   assigns nothing
+//@ func (*Context).RLE
+//@   requires ctx != nil
+//@   ensures result == (ctx.distinctCount <= 8)
+//@   assigns nothing
+//@ func (*Context).Snappy
+//@   requires ctx != nil
+//@   ensures result == (!ctx.intOnly && ctx.lessDecimal)
+//@   assigns nothing
+
+//@ func isInt
+//@   trusted pure arithmetic on its argument (math.Ceil/Floor)
+//@   assigns nothing
+//@ func lessDecimal
+//@   trusted pure arithmetic on its argument
+//@   assigns nothing
+
+// The statistics that pick the compression scheme are exact:
+//  - a NaN or +-Inf anywhere in the column (also at index 0) forces the NaN-safe scheme;
+//  - "all values the same" means bit-identical (so -0.0 / +0.0 or different NaN payloads are not merged).
+//@ func GenerateContext
+//@   ensures result != nil && result.valueCount == len(values)
+//@   ensures len(values) > 4 ==> (result.extremeDataValues == (exists i int :: 0 <= i && i < len(values) && (isNaN(values[i]) || isInf(values[i]))))
+//@   ensures len(values) > 4 && result.distinctCount == 1 ==> (forall i int :: 0 <= i && i < len(values) ==> f64bits(values[i]) == f64bits(values[0]))
+//@   loop 1
+//@     invariant ctx != nil && distinctCount >= 1
+//@     invariant ctx.extremeDataValues == (exists j int :: 0 <= j && j <= rangeindex && (isNaN(values[j]) || isInf(values[j])))
+//@     invariant distinctCount == 1 ==> (forall j int :: 0 <= j && j <= rangeindex ==> f64bits(values[j]) == f64bits(values[0]))
+//@   loop 2
+//@     invariant ctx != nil && ctx.distinctCount == distinctCount && ctx.extremeDataValues == (exists j int :: 0 <= j && j < len(values) && (isNaN(values[j]) || isInf(values[j])))
+
+// The same-value block writes the value's 8 bytes unless its bit pattern is all zero.
+//@ func (*RLE).SameValueEncoding
+//@   mode bv
+//@   requires rle != nil && rle.step == 8 && len(in) >= 8
+//@   ghost zerobits bool = false
+//@   call Bytes2Float64Slice
+//@     set zerobits = (f64bits(ret0[0]) == 0)
+//@   ensures result1 == nil && len(result0) == len(out) + 2 ==> zerobits
+
+//@ func GorillaEncoding
+//@   ensures result1 != nil ==> result0 == nil
+
+// The encoder never touches its output after the Gorilla coder reported an error
+// (values the write path accepts, such as +Inf/-Inf mixes, make it fail).
+//@ func (*Float).adaptiveEncoding$1
+//@   requires ctx != nil
+//@   ghost tried bool = false
+//@   ghost gerr Iface = nil
+//@   call GorillaEncoding
+//@     set tried = true
+//@     set gerr = ret1
+//@   call append
+//@     requires tried ==> gerr == nil
